@@ -256,6 +256,77 @@ fn note(log: &mut Log, r: &Value) {
     }
 }
 
+// ------------------------------------------------------------ readers over real files (no io log)
+// Events carry `who` (which reader object of the run); results have the same fields as the scripted-reader
+// events, with an empty io list (the trace spec does no machine replay for these classes).
+type FileRd = fasta::IndexedReader<std::fs::File>;
+
+fn file_cfg(cls: &str, recs: &[FRec], lay: &Layout) -> Value {
+    json!({
+        "cls": cls, "cut": -1, "file": bytes(&lay.file), "fai": lay.rows,
+        "recs": recs.iter().map(|r| json!({"name": bytes(&r.name), "desc": bytes(&r.desc), "seq": bytes(&r.seq),
+                                           "w": r.w, "t": r.t})).collect::<Vec<_>>(),
+    })
+}
+fn seqs_json<R: Read + Seek>(rd: &fasta::IndexedReader<R>) -> Vec<Value> {
+    rd.index.sequences().iter().map(|q| json!({"name": bytes(q.name.as_bytes()), "len": q.len})).collect()
+}
+fn fev_fetch<R: Read + Seek>(log: &mut Log, rd: &mut fasta::IndexedReader<R>, who: usize, name: &[u8], start: u64, stop: u64) {
+    log.call("fetch", json!({"who": who, "name": bytes(name), "start": start, "stop": stop}), || {
+        json!({"ok": ok01(&rd.fetch(s(name), start, stop))})
+    });
+}
+fn fev_fetch_rid<R: Read + Seek>(log: &mut Log, rd: &mut fasta::IndexedReader<R>, who: usize, rid: usize, start: u64, stop: u64) {
+    log.call("fetch_rid", json!({"who": who, "rid": rid, "start": start, "stop": stop}), || {
+        json!({"ok": ok01(&rd.fetch_by_rid(rid, start, stop))})
+    });
+}
+fn fev_read<R: Read + Seek>(log: &mut Log, rd: &mut fasta::IndexedReader<R>, who: usize, junk: bool) {
+    log.call("read", json!({"who": who, "sched": 0}), || {
+        let mut seq: Vec<u8> = if junk { b"JUNKJUNK".to_vec() } else { vec![] };
+        match rd.read(&mut seq) {
+            Ok(()) => json!({"ok": 1, "err": "none", "seq": bytes(&seq), "io": []}),
+            Err(e) => json!({"ok": 0, "err": err_kind(&e), "seq": bytes(&seq), "io": []}),
+        }
+    });
+}
+fn fev_read_iter<R: Read + Seek>(log: &mut Log, rd: &mut fasta::IndexedReader<R>, who: usize, limit: usize) {
+    log.call("read_iter", json!({"who": who, "take": -1, "sched": 0}), || match rd.read_iter() {
+        Err(e) => json!({"ok": 0, "err": err_kind(&e), "items": [], "ierr": 0, "ierrkind": "none", "after": 0,
+                         "ended": 0, "capped": 0, "hint": -1, "io": []}),
+        Ok(mut it) => {
+            let hint0 = it.size_hint().0;
+            let mut items: Vec<u8> = vec![];
+            let (mut ierr, mut after, mut ended, mut capped) = (0, 0, 0, 0);
+            let mut ierrkind = "none";
+            loop {
+                if items.len() + after > limit {
+                    capped = 1;
+                    break;
+                }
+                match it.next() {
+                    None => {
+                        ended = 1;
+                        break;
+                    }
+                    Some(Ok(b)) => {
+                        if ierr == 1 { after += 1 } else { items.push(b) }
+                    }
+                    Some(Err(e)) => {
+                        if ierr == 1 { after += 1 } else {
+                            ierr = 1;
+                            ierrkind = err_kind(&e);
+                        }
+                    }
+                }
+            }
+            json!({"ok": 1, "err": "none", "items": bytes(&items), "ierr": ierr, "ierrkind": ierrkind, "after": after,
+                   "ended": ended, "capped": capped, "hint": if hint0 < (1usize << 30) { hint0 as i64 } else { -1 },
+                   "io": []})
+        }
+    });
+}
+
 // ------------------------------------------------------------ closed-form huge files (never materialised)
 const RADIX: u64 = 1_000_000; // positions travel as (hi, lo) = hi * 10^6 + lo; 5 | 10^6
 
@@ -981,6 +1052,146 @@ pub fn drive(log: &mut Log) {
         }
         let chunk = [usize::MAX, 1000, 8192, 61][ci % 4];
         big_run(log, len, w, t, chunk, dump, &q);
+    }
+
+    // ---------------- E: record names: the first byte swept over all printable ASCII (also in the middle of a
+    // name); the .fai text parsed by Index::new (memory) or Index::from_file via IndexedReader::from_file;
+    // every record fetched by name and by record number
+    for c in 33u8..=126 {
+        case += 1;
+        if !log.mine(case) {
+            continue;
+        }
+        let mut rng = Rng::new(seed, 25, case);
+        let t = 1 + (c as usize % 2);
+        let mk = |name: Vec<u8>, rng: &mut Rng, k: usize| FRec { name, desc: if k == 1 { b"second rec".to_vec() } else { vec![] },
+                                                                seq: seq_of(rng, 5 + 3 * k + (c as usize % 4)), w: 4 + k, t };
+        let recs = vec![
+            mk(b"plain".to_vec(), &mut rng, 0),
+            mk(vec![c, b'2'], &mut rng, 1),
+            mk(vec![b'a', c, b'b'], &mut rng, 2),
+            mk(vec![c], &mut rng, 3),
+            mk(b"last".to_vec(), &mut rng, 4),
+        ];
+        let lay = layout(&recs, c % 3 == 0);
+        let from_file = c % 2 == 1;
+        if !log.begin("names", file_cfg("file", &recs, &lay)) {
+            continue;
+        }
+        let path = format!("{}.names{}.fa", log.opts.out, c);
+        if from_file {
+            std::fs::write(&path, &lay.file).unwrap();
+            std::fs::write(format!("{}.fai", path), lay.fai.as_bytes()).unwrap();
+            let mut r: Option<FileRd> = None;
+            log.call("open", json!({"who": 0, "via": "from_file"}), || {
+                let x = fasta::IndexedReader::from_file(&path).unwrap();
+                let q = seqs_json(&x);
+                r = Some(x);
+                json!({"seqs": q})
+            });
+            if let Some(mut r) = r {
+                for (k, rec) in recs.iter().enumerate() {
+                    let len = rec.seq.len() as u64;
+                    fev_fetch(log, &mut r, 0, &rec.name, 0, len);
+                    fev_read(log, &mut r, 0, k % 2 == 0);
+                    fev_fetch_rid(log, &mut r, 0, k, 1.min(len), len);
+                    fev_read_iter(log, &mut r, 0, len as usize + 8);
+                }
+            }
+            let _ = std::fs::remove_file(&path);
+            let _ = std::fs::remove_file(format!("{}.fai", path));
+            log.oblige("index_from_file");
+        } else {
+            let mut r: Option<fasta::IndexedReader<std::io::Cursor<Vec<u8>>>> = None;
+            log.call("open", json!({"who": 0, "via": "index_new"}), || {
+                let x = fasta::IndexedReader::new(std::io::Cursor::new(lay.file.clone()), lay.fai.as_bytes()).unwrap();
+                let q = seqs_json(&x);
+                r = Some(x);
+                json!({"seqs": q})
+            });
+            if let Some(mut r) = r {
+                for (k, rec) in recs.iter().enumerate() {
+                    let len = rec.seq.len() as u64;
+                    fev_fetch_rid(log, &mut r, 0, k, 0, len);
+                    fev_read(log, &mut r, 0, k % 2 == 1);
+                    fev_fetch(log, &mut r, 0, &rec.name, 1.min(len), len);
+                    fev_read_iter(log, &mut r, 0, len as usize + 8);
+                }
+            }
+        }
+        log.oblige("name_first_byte_sweep");
+        if c == b'#' || c == b'"' || c == b';' {
+            log.oblige("name_with_csv_special_first_byte");
+        }
+    }
+
+    // ---------------- F: two IndexedReaders over try_clone'd handles of ONE file: they share the OS file
+    // cursor; fetch/read histories interleaved at call granularity, incl. adjacent windows
+    let nshared = log.opts.n(6, 30);
+    for i in 0..nshared {
+        case += 1;
+        if !log.mine(case) {
+            continue;
+        }
+        let mut rng = Rng::new(seed, 26, case);
+        let t = 1 + (i as usize % 2);
+        let w = [60usize, 61, 100][i as usize % 3];
+        let len = 34_000 + rng.below(3000) as usize;
+        let recs = vec![
+            FRec { name: b"s0".to_vec(), desc: vec![], seq: seq_of(&mut rng, 7), w: 3, t },
+            FRec { name: b"chr".to_vec(), desc: b"shared".to_vec(), seq: seq_of(&mut rng, len), w, t },
+        ];
+        let lay = layout(&recs, false);
+        if !log.begin("shared", file_cfg("shared", &recs, &lay)) {
+            continue;
+        }
+        let path = format!("{}.shared{}.fa", log.opts.out, i);
+        std::fs::write(&path, &lay.file).unwrap();
+        let f1 = std::fs::File::open(&path).unwrap();
+        let f2 = f1.try_clone().unwrap();
+        let mut rds: Vec<FileRd> = vec![];
+        for (who, f) in [f1, f2].into_iter().enumerate() {
+            let mut r: Option<FileRd> = None;
+            log.call("open", json!({"who": who, "via": "try_clone"}), || {
+                let x = fasta::IndexedReader::new(f, lay.fai.as_bytes()).unwrap();
+                let q = seqs_json(&x);
+                r = Some(x);
+                json!({"seqs": q})
+            });
+            if let Some(r) = r {
+                rds.push(r);
+            }
+        }
+        if rds.len() == 2 {
+            // per reader: the end of its previous window (the next window starts there)
+            let mut at = [0u64, 30_000];
+            let mut step = 0usize;
+            for round in 0..6 {
+                for who in 0..2usize {
+                    step += 1;
+                    let a = at[who];
+                    let span = match (round + who) % 3 {
+                        0 => 100,
+                        1 => rng.range(1, 3 * w as i64) as u64,
+                        _ => if who == 0 { 9_000 + rng.below(9000) } else { 500 },
+                    };
+                    let b = (a + span).min(len as u64);
+                    if step % 2 == 0 { fev_fetch(log, &mut rds[who], who, b"chr", a, b) } else {
+                        fev_fetch_rid(log, &mut rds[who], who, 1, a, b)
+                    }
+                    if (round + 2 * who) % 3 == 2 { fev_read_iter(log, &mut rds[who], who, (b - a) as usize + 8) } else {
+                        fev_read(log, &mut rds[who], who, step % 3 == 0)
+                    }
+                    at[who] = if b >= len as u64 { rng.below(1000) } else { b };
+                    if round > 0 {
+                        log.oblige("shared_cursor_adjacent_window_after_foreign_read");
+                    }
+                }
+            }
+        }
+        drop(rds);
+        let _ = std::fs::remove_file(&path);
+        log.oblige("shared_cursor_two_readers");
     }
 }
 
